@@ -6,6 +6,7 @@ import (
 	"io"
 	"os"
 	"strings"
+	"sync"
 )
 
 type (
@@ -20,10 +21,30 @@ type (
 )
 
 // DupReadCloser 返回两个 io.ReadCloser，其中第一个将写入第二个。
+// 两个 reader 可能被不同的协程使用（例如超时后的日志中间件与仍在运行的处理器），
+// 因此共享缓冲区需要加锁。
 func DupReadCloser(reader io.ReadCloser) (io.ReadCloser, io.ReadCloser) {
-	var buf bytes.Buffer
-	tee := io.TeeReader(reader, &buf)
-	return io.NopCloser(tee), io.NopCloser(&buf)
+	buf := new(lockedBuffer)
+	tee := io.TeeReader(reader, buf)
+	return io.NopCloser(tee), io.NopCloser(buf)
+}
+
+// lockedBuffer 是并发安全的 bytes.Buffer（仅 Read/Write）。
+type lockedBuffer struct {
+	mu  sync.Mutex
+	buf bytes.Buffer
+}
+
+func (b *lockedBuffer) Read(p []byte) (int, error) {
+	b.mu.Lock()
+	defer b.mu.Unlock()
+	return b.buf.Read(p)
+}
+
+func (b *lockedBuffer) Write(p []byte) (int, error) {
+	b.mu.Lock()
+	defer b.mu.Unlock()
+	return b.buf.Write(p)
 }
 
 // ReadBytes 精确读取长度为 len(buf) 的字节。
